@@ -40,7 +40,7 @@ func sh(q, t int) map[string]int { return map[string]int{"quick": q, "thorough":
 var props = map[string]*Prop{
 	"C15": {
 		Level: "exploration",
-		Rule: "every ordered list of <=3 entries from a 47-entry alphabet (7 guarded keys x {UPPER,lower,mIxEd} x hostile values, look-alike keys, unrelated variables) is installed as the process environment and GetHardenedEnv is checked under 4 resolution rules ({first,last}-wins x case-{sensitive,insensitive}) plus pass-through; raw envp duplicates via ForkExec children; a fake `go` in PATH records what the real loader passes. Non-trivial = distinct resulting environment that contains at least one spelling of a guarded key.",
+		Rule: "every ordered list of <=3 entries from a 47-entry alphabet (7 guarded keys x {UPPER,lower,mIxEd} x hostile values, look-alike keys, unrelated variables, and every name a bit-0x20 byte fold (set/clear/flip) confuses with a guarded key in any of the three spellings: one byte replaced at any position, or all non-letters at once - DEL for '_', DC1 for '1' - which are unrelated variables) is installed as the process environment and GetHardenedEnv is checked under 4 resolution rules ({first,last}-wins x case-{sensitive,insensitive}) plus pass-through; raw envp duplicates via ForkExec children; a fake `go` in PATH records what the real loader passes. Non-trivial = distinct resulting environment that contains at least one spelling of a guarded key.",
 		Assumptions: []string{"os/exec passes cmd.Env last-wins and Linux environments are case-sensitive; the check nevertheless requires the hardened value under all four resolution rules", "GONOSUMDB/GO111MODULE are not named by the statement and are ignored by the pass-through oracle"},
 		Bounds:      map[string]string{"quick": "<=3 entries, full alphabet", "thorough": "<=3 entries, full alphabet (same: the space is exhausted in seconds)"},
 		Units: []Unit{
@@ -127,7 +127,7 @@ var props = map[string]*Prop{
 	},
 	"C11": {
 		Level: "model_checking",
-		Rule: "stateless exploration of the real stores under a controlled scheduler: store.go/json_store.go are rebuilt (overlay, derived from the working tree) against shims of sync and pebble whose acquisitions and database operations are scheduling points; 30 scenarios (1 reader x 1 writer for 4 scan calls x 5 writers; 1 reader x 2 writers; 2 readers x 1 writer) over writers that flip a signature between versions with different hashes, delete and re-add it, rebuild indexes, change threshold/tolerance, mark false positives; all interleavings with <=2/<=1 preemptions (quick), unbounded for 1x1 and <=3 otherwise (thorough). Oracle: each reader result equals the same call run ALONE on a fresh store frozen in one committed state that existed during the call (states captured after every commit). states = distinct reader outcomes, transitions = decision points, traces = executions (each is an implementation run). Non-trivial = scenario with >= 2 distinct reader outcomes.",
+		Rule: "stateless exploration of the real stores under a controlled scheduler: store.go/json_store.go are rebuilt (overlay, derived from the working tree) against shims of sync and pebble whose acquisitions and database operations are scheduling points; 67 scenarios (1 reader x 1 writer for 4 scan calls x 5 writers; 1 reader x 2 writers; 2 readers x 1 writer; writers only; a probe that reaches the flipped signature through the fuzzy index only; MarkFalsePositive racing an update/delete/rebuild of the same ID, alone and under a scan) over writers that flip a signature between versions with different hashes, delete and re-add it, rebuild indexes, change threshold/tolerance, mark false positives, change only index values or only unindexed fields; all interleavings with <=2/<=1 preemptions (quick), unbounded for 1x1 and <=3 otherwise (thorough). Oracle: each reader result equals the same call run ALONE on a fresh store frozen in one committed state that existed during the call (states captured after every commit); after all threads finished: physical indexes consistent with the records, the final content equals some serial order of the writers' operations, and every scan of six probes equals brute force over the stored records. states = distinct reader outcomes, transitions = decision points, traces = executions (each is an implementation run). Non-trivial = scenario with >= 2 distinct reader outcomes.",
 		Assumptions: []string{"Pebble is linearizable per call and its snapshots/iterators are isolated (trusted, not explored inside)", "data races are invisible to a cooperative scheduler: a separate free-running -race unit runs the same bodies (sampling, reported as such)", "Go's RWMutex writer preference is not modelled (more behaviours are allowed, none is lost)"},
 		Bounds:      map[string]string{"quick": "preemption bound 2 (1x1) / 1 (others)", "thorough": "unbounded (1x1) / preemption bound 3 (others), cap 400000 executions per scenario"},
 		Units: []Unit{
@@ -223,12 +223,13 @@ var props = map[string]*Prop{
 	},
 	"C17": {
 		Level: "exploration",
-		Rule: "adversarial families at growing sizes: n identical calls on one value and n if-statements with changed conditions (zipper, n = 50..1600/3200), doubling expression DAGs inside a loop / used by an inner loop / as a loop bound (depth 6..60), 5..80 nested loops with and without dependent starts, 500..2600 if-blocks (beyond the 5000-block guard), string literals up to 1MB; for every member the real GenerateFingerprint, ExtractTopology and Zipper run while three hook counters (instruction-equivalence comparisons, SCEV body evaluations, SCEV renamer invocations) are read; oracle: no panic, counters within explicit polynomial bounds (2*100^2 + 4*100*(instructions+blocks); 60*(instr+1)*(loops+1); 400*(instr+1)*(loops+1)), at most ~linear growth between consecutive sizes, oversize functions answered with the OVERSIZED marker, string caps respected; a watchdog converts a runaway counter (50x the bound) into a violation instead of a hang. Crash-freedom over small programs is exercised by the whole program family in C02-C05/C09 (every variant goes through the same entry points). Non-trivial = distinct family member.",
+		Rule: "adversarial families at growing sizes: n identical calls on one value and n if-statements with changed conditions (zipper, n = 50..1600/3200), doubling expression DAGs inside a loop / used by an inner loop / as a loop bound (depth 6..60), 5..80 nested loops with and without dependent starts, 500..2600 if-blocks (beyond the 5000-block guard), string literals up to 1MB; for every member the real GenerateFingerprint, ExtractTopology and Zipper run while three hook counters (instruction-equivalence comparisons, SCEV body evaluations, SCEV renamer invocations) are read; oracle: no panic, counters within explicit polynomial bounds (2*100^2 + 4*100*(instructions+blocks); 60*(instr+1)*(loops+1); 400*(instr+1)*(loops+1)), at most ~linear growth between consecutive sizes, oversize functions answered with the OVERSIZED marker, string caps respected; at the `sfw diff` entry points (CompareFunctions, ComputeDiff) a function within the block cap in one version and beyond it in the other (three shapes, both directions, and both sides beyond the cap) yields a report entry without matched nodes and without operations of the oversized side, at zero instruction-equivalence comparisons; a watchdog converts a runaway counter (50x the bound) into a violation instead of a hang. Crash-freedom over small programs is exercised by the whole program family in C02-C05/C09 (every variant goes through the same entry points). Non-trivial = distinct family member.",
 		Assumptions: []string{"work is measured in counted operations only, never in seconds", "the fuzzer-mutated-sources clause of the statement is not decided by this family of technique (random mutation is sampling); the bounded-exhaustive program family stands in for it"},
 		Bounds:      map[string]string{"quick": "sizes up to 1600 / depth up to 60", "thorough": "adds size 3200"},
 		Units: []Unit{
 			{Name: "adversarial-families", Pkg: "pkg/diff", Test: "TestVerifC17", Shards: sh(8, 8), TimeoutS: sh(1800, 3600), DeadlineS: sh(900, 3000)},
 			{Name: "oversized-inputs", Pkg: "internal/cli", Test: "TestVerifC17Inputs", Shards: sh(16, 16), TimeoutS: sh(1800, 1800)},
+			{Name: "one-sided-oversize", Pkg: "internal/cli", Test: "TestVerifC17Grown", Shards: sh(8, 8), TimeoutS: sh(1800, 1800)},
 		},
 	},
 	"C13": {
@@ -262,18 +263,18 @@ var props = map[string]*Prop{
 	},
 	"C10": {
 		Level: "model_checking",
-		Rule: "(1) every range over a map in pkg/diff, pkg/detection and pkg/analysis/topology is a choice point (overlay from the working tree); function matching (4 file pairs with twin shapes, ties among rename candidates, mixed renames/additions) and signature matching/indexing (several callees satisfying one required call) are run for every execution with <=1 (quick) / <=2 (thorough) deviating sites and must render identically; (2) check.go and scan.go are rebuilt against scheduler shims of sync and errgroup: ALL interleavings of the per-file workers of ProcessFilesParallel (3 files incl. a broken one; strict+scan) and of RunScanLogic over a tree whose packages contain same-named functions matching different signatures at equal confidence; (3) the built binary: diff, check, check --scan, scan (json, pebble, exact) as fresh processes for GOMAXPROCS {1,2,16} x 3 repetitions. Oracle: byte-identical output. states = distinct outputs per scenario (must be 1) / distinct lock orders, transitions = decisions, traces = executions of the real code.",
+		Rule: "(1) every range over a map in pkg/diff, pkg/detection and pkg/analysis/topology is a choice point (overlay from the working tree); function matching (4 file pairs with twin shapes, ties among rename candidates, mixed renames/additions) and signature matching/indexing (several callees satisfying one required call) are run for every execution with <=1 (quick) / <=2 (thorough) deviating sites and must render identically; (2) check.go and scan.go are rebuilt against scheduler shims of sync and errgroup: ALL interleavings of the per-file workers of ProcessFilesParallel (3 files incl. a broken one; strict+scan) and of RunScanLogic over a tree whose packages contain same-named functions matching different signatures at equal confidence, and over a tree whose same-named functions hit ONE signature with alerts that differ only in strings_matched; (3) the built binary: diff, check, check --scan, scan (json, pebble, exact; pebble also as the re-executed sandbox worker, which scans a temporary copy of the database) as fresh processes for GOMAXPROCS {1,2,16} x 3 repetitions. Oracle: byte-identical output. states = distinct outputs per scenario (must be 1) / distinct lock orders, transitions = decisions, traces = executions of the real code.",
 		Assumptions: []string{"fingerprints themselves are run-independent (C01)", "maps with more than four keys: permutation menu only"},
 		Bounds:      map[string]string{"quick": "<=1 deviating map site; all worker interleavings; 9 process runs per command", "thorough": "<=2 deviating map sites"},
 		Units: []Unit{
 			{Name: "report-layer-map-orders", Pkg: "pkg/diff", Test: "TestVerifC10Match", Tags: []string{"verif_sched"}, Shards: sh(4, 4), GoMaxProcs: 2, TimeoutS: sh(1800, 3600), DeadlineS: sh(600, 2400),
 				Profile: ovgen.Profile{MapRanges: []string{"pkg/diff", "pkg/detection", "pkg/analysis/topology"}}},
-			{Name: "worker-schedules", Pkg: "internal/cli", Test: "TestVerifC10Workers", Tags: []string{"verif_workers"}, Shards: sh(5, 5), GoMaxProcs: 2, TimeoutS: sh(1800, 3600), DeadlineS: sh(600, 2400),
+			{Name: "worker-schedules", Pkg: "internal/cli", Test: "TestVerifC10Workers", Tags: []string{"verif_workers"}, Shards: sh(6, 6), GoMaxProcs: 2, TimeoutS: sh(1800, 3600), DeadlineS: sh(600, 2400),
 				Profile: ovgen.Profile{MapRanges: []string{"internal/cli"}, Imports: []ovgen.ImportRewrite{
 					{File: "internal/cli/check.go", Map: map[string]string{"sync": ovgen.ShimBase + "vsync", "golang.org/x/sync/errgroup": ovgen.ShimBase + "verrgroup"}},
 					{File: "internal/cli/scan.go", Map: map[string]string{"sync": ovgen.ShimBase + "vsync", "golang.org/x/sync/errgroup": ovgen.ShimBase + "verrgroup"}},
 				}}},
-			{Name: "process-repetitions", Pkg: "internal/cli", Test: "TestVerifC10Configs", Shards: sh(6, 6), Builds: []Build{{Pkg: "cmd/sfw", Out: "sfw"}}},
+			{Name: "process-repetitions", Pkg: "internal/cli", Test: "TestVerifC10Configs", Shards: sh(7, 7), Builds: []Build{{Pkg: "cmd/sfw", Out: "sfw"}}},
 		},
 	},
 }
